@@ -113,3 +113,22 @@ def unit_switch_store(twin=False):
         r.add("%s.getter_reads_what_setter_wrote" % sw, DISCHARGED if gfield == field and not any(writes(g, k) for k in g.heap) else FAILED, "symex", 0, "setter field %s, getter field %s" % (field, gfield), kind="post")
     r.assumptions += ["per-user-number selected-output switches are under C05/C13 wrapper units", "bool/int coercions of the argument are value-preserving"]
     return r
+
+
+def unit_default_file_names(twin=False):
+    """Default selected-output file names embed the user number they belong to and the instance id: wherever a default name is
+    stored, `SelectedOutputFileNameMap[k] = sel_file_name(a)` has a == k; sel_file_name / create_file_name build
+    selected_<n>.<id>.out and <prefix>.<id>.<suffix>."""
+    import re
+    r = U.new_unit("C13.file_names.defaults_embed_user_number_and_instance_id", IPQ, "IPhreeqc::punch_open", A.find_function(IPQ, "IPhreeqc::punch_open"), kind="structural")
+    txt = re.sub(r"\s+", "", src(IPQ).decode("latin1"))
+    sites = re.findall(r"this->SelectedOutputFileNameMap\[([^\]]+)\]=this->sel_file_name\(([^\)]+)\);", txt)
+    for k, (key, arg) in enumerate(sites):
+        ok = key == arg and not (twin and k == 0)
+        r.add("site%d.name_for_user_number_%s_built_from_%s" % (k, key, arg), DISCHARGED if ok else FAILED, "syntactic", 0, "")
+    r.add("reach.sites", DISCHARGED if len(sites) >= 2 else UNDECIDED, "syntactic", 0, "%d" % len(sites), kind="vacuity")
+    fs = text_of(IPQ, A.find_function(IPQ, "IPhreeqc::sel_file_name"))
+    fc = text_of(IPQ, A.find_function(IPQ, "IPhreeqc::create_file_name"))
+    r.add("sel_file_name==selected_<n>.<Index>.out", DISCHARGED if 'oss<<"selected_"<<n_user<<"."<<this->Index<<".out";' in fs else FAILED, "syntactic", 0, "", kind="post")
+    r.add("create_file_name==<prefix>.<Index>.<suffix>", DISCHARGED if 'oss<<prefix<<"."<<this->Index<<"."<<suffix;' in fc else FAILED, "syntactic", 0, "", kind="post")
+    return r
